@@ -16,7 +16,7 @@ pub const FAMS: [&str; 1] = ["cell"];
 pub fn jobs(ctx: &Ctx) -> Vec<Job> {
     let mut jobs = Vec::new();
     let mut k = 0u64;
-    let per = ctx.tier.pick(4, ctx.scale(40));
+    let per = ctx.tier.pick(8, ctx.scale(150));
     for v in 1..=40usize {
         for level in 0..4usize {
             let masks: Vec<usize> = ctx.tier.pick(vec![0], (0..8).collect());
